@@ -133,15 +133,32 @@ def run(R):
         g = cfg_of(cv)
         finds = [b for b in cv.blocks if b["term"]["k"] == "call" and not b["cleanup"] and callee_matches(b["term"], ["core::iter::traits::iterator::Iterator::find"])]
         some = AggSink("core::option::Option", "Some", dest_ty="Multiaddr")
-        # IPv4 is mandatory: first `find(...)?`
-        okv = len(finds) >= 5
+        # which Protocol variant each `find` looks for: its closure singles out one discriminant (names from the multiaddr source
+        # of the version Cargo.lock pins), so the order of the look-ups in the function does not matter
+        from rules import closures_passed
+        import facts as _facts
+        pv = T.external_enum_variants(_facts.REPO, "multiaddr", "src/protocol.rs", "Protocol") or {}
+        by_variant = {}
+        for fb in finds:
+            for c in closures_passed(F, cv, fb["term"]):
+                prep(c)
+                for blk in c.blocks:
+                    t = blk["term"]
+                    if t["k"] == "switch" and any(st["rv"]["k"] == "discr" for st in blk["stmts"]) and len(t["targets"]) == 1:
+                        by_variant.setdefault(pv.get(int(t["targets"][0][0]), "?%s" % t["targets"][0][0]), []).append(fb["id"])
+
+        def find_of(name):
+            ids = set(by_variant.get(name, []))
+            return CallGuard(["core::iter::traits::iterator::Iterator::find"], ("Some",), "%s found" % name, arg_pred=lambda b, blk, t, ids=ids: blk["id"] in ids)
+        # IPv4 is mandatory
+        okv = all(by_variant.get(n) for n in ("Ip4", "Udp", "Tcp", "P2p"))
         if okv:
-            ip = CallGuard(["core::iter::traits::iterator::Iterator::find"], ("Some",), "Ip4 found", arg_pred=lambda b, blk, t, f=finds: blk["id"] == f[1]["id"])
+            ip = find_of("Ip4")
             R.gate("C18.craft.ip", cv, some, [[ip]], descr="craft_valid_multiaddr returns Some only with an IPv4 component")
-            udp = CallGuard(["core::iter::traits::iterator::Iterator::find"], ("Some",), "Udp found", arg_pred=lambda b, blk, t, f=finds: blk["id"] == f[2]["id"])
-            tcp = CallGuard(["core::iter::traits::iterator::Iterator::find"], ("Some",), "Tcp found", arg_pred=lambda b, blk, t, f=finds: blk["id"] == f[3]["id"])
+            udp = find_of("Udp")
+            tcp = find_of("Tcp")
             R.gate("C18.craft.transport", cv, some, [[udp, tcp]], descr="… only with a UDP or TCP component")
-            pid = CallGuard(["core::iter::traits::iterator::Iterator::find"], ("Some",), "P2p found", arg_pred=lambda b, blk, t, f=finds: blk["id"] == f[0]["id"])
+            pid = find_of("P2p")
 
             class _Ignore:
                 label = "ignore_peer_id"
@@ -153,16 +170,7 @@ def run(R):
                     tr.run()
                     return 1, tr.accept, tr.reject
             R.gate("C18.craft.peer", cv, some, [[pid, _Ignore()]], descr="… only with a peer id unless ignore_peer_id")
-            # which variant each find looks for: the closures single out one Protocol variant each, all distinct
-            cl = [c for c in F.item(cv.path) if c.kind == "closure"]
-            vs = []
-            for c in cl:
-                prep(c)
-                for blk in c.blocks:
-                    t = blk["term"]
-                    if t["k"] == "switch" and any(s["rv"]["k"] == "discr" for s in blk["stmts"]):
-                        vs.append(tuple(v for v, _ in t["targets"]))
-            okv = len(vs) >= 5 and len(set(vs[:4])) == 4 and all(len(v) == 1 for v in vs)
+            okv = len(by_variant) >= 4 and all(len(set(by_variant[n])) >= 1 for n in ("Ip4", "Udp", "Tcp", "P2p"))
         if not okv:
             R.viol("C18.craft.variants", "craft-shape", "craft_valid_multiaddr no longer looks up P2p, Ip4, Udp, Tcp as four distinct single-variant searches", cv, cv.lines[0])
         R.inst("C18.craft.variants", "K7 table agreement", "four distinct Protocol variants (P2p, Ip4, Udp, Tcp) searched by single-variant matches", len(finds), okv)
@@ -221,13 +229,24 @@ def run(R):
                 R.viol("C18.cleanup.steps", "step-missing:%s" % k.split("::")[-1], "perform_cleanup no longer performs: %s" % w, pc, pc.lines[0])
         R.inst("C18.cleanup.steps", "K1 must-call", "perform_cleanup: retain, drop empty peers, truncate, try_remove_oldest_peers", len(need), okn)
         R.must_pass("C18.cleanup.peers", pc, [("try_remove_oldest_peers", CallSink(CD + "::try_remove_oldest_peers"))], descr="perform_cleanup always bounds the peer count")
-        tc = [c for c in closures if any(x["ncallee"] == "alloc::vec::Vec::truncate" for x in c.calls)]
-        okt = False
-        for c in tc:
+        # the truncation (in the clean-up itself, in a helper inlined into it, or in the closure of a for_each) is to cfg.max_addrs_per_peer
+        from rules import _captured_seeds
+        prep(pc)
+        mx_pc = Taint(pc, through="all").closure({d for d, r, p in field_reads(pc, "max_addrs_per_peer")})
+        tc, okt = [], True
+        for c in F.item(CD + "::perform_cleanup"):
             prep(c)
-            mx = Taint(c).closure({d for d, r, p in field_reads(c, "max_addrs_per_peer")})
-            tb = [blk for blk in c.blocks if blk["term"]["k"] == "call" and callee_matches(blk["term"], ["alloc::vec::Vec::truncate"])]
-            okt = bool(tb) and all(op_local(blk["term"]["args"][1]) in mx for blk in tb)
+            tb = [blk for blk in c.blocks if blk["term"]["k"] == "call" and not blk["cleanup"] and callee_matches(blk["term"], ["alloc::vec::Vec::truncate"])]
+            if not tb:
+                continue
+            tc.append(c)
+            seeds = {d for d, r, p in field_reads(c, "max_addrs_per_peer")}
+            if c.kind == "closure":
+                seeds |= _captured_seeds(pc, c, mx_pc)
+            mx = Taint(c, through="all").closure(seeds)
+            if not all(op_local(blk["term"]["args"][1]) in mx for blk in tb):
+                okt = False
+        okt = okt and bool(tc)
         if not okt:
             R.viol("C18.cleanup.truncate", "truncate-arg", "addresses per peer are not truncated to cfg.max_addrs_per_peer", pc, pc.lines[0])
         R.inst("C18.cleanup.truncate", "K6 flows-to", "truncate(cfg.max_addrs_per_peer)", len(tc), okt)
@@ -282,7 +301,7 @@ def run(R):
             R.viol("C18.merge", "anchor-missing:%s" % fn, "merge function not found: %s" % fn)
     R.inst("C18.merge", "K2 mutator whitelist", "sync / insert paths never remove, retain, truncate or clear", n, okm)
     # every peer / address of the other side is merged: the merge loop is reached on every path and no iteration skips the merge
-    for fn, fld, sinks in ((CD + "::sync", "peers", [AB + "BootstrapAddresses::sync"]), (AB + "BootstrapAddresses::sync", "0", [AB + "BootstrapAddr::sync", AB + "BootstrapAddresses::insert_addr"])):
+    for fn, fld, sinks in ((CD + "::sync", "peers", [AB + "BootstrapAddresses::sync"]), (AB + "BootstrapAddresses::sync", "0", [AB + "BootstrapAddr::sync", AB + "BootstrapAddresses::insert_addr", "alloc::vec::Vec::push"])):   # (push: insert_addr written out)
         mb = R.body("C18.merge.every", fn)
         if mb is None:
             continue
